@@ -28,5 +28,5 @@ enum { CFG_FLAGS = 0 /* [0] recursive [1] dry [2] kernelkill [3] reap [4] always
        CFG_X = 6 /* + n-1 for n=1..4: [0..1] ooms pre (trusted,user) -1 none, [2..3] kill pre */ };
 #define PID_OF(n, k) (100 + (n) * 10 + (k))
 /* event NOTE codes */
-enum { N_ATTEMPT = 800, N_RET = 801, N_PAUSE = 802, N_XINIT = 803, N_XDONE = 804, N_XUUID = 805 };
+enum { N_ATTEMPT = 800, N_RET = 801, N_PAUSE = 802, N_XINIT = 803, N_XDONE = 804, N_XUUID = 805, N_UNITVICTIM = 806, N_UNITRET = 807, N_SORTED = 810 /* +1..+3: i-th ranked node */ };
 #endif
